@@ -239,6 +239,7 @@ breaking('RP1-seed-C18-r3m2', {'C18': 'RP1'}, patch='/verif/selftest/patches/see
 breaking('O3B-seed-C18-r3m3', {'C18': 'O3B'}, patch='/verif/selftest/patches/seed_C18_r3m3.diff')
 breaking('DT4-seed-C20-r3m2', {'C20': 'DT4'}, patch='/verif/selftest/patches/seed_C20_r3m2.diff')
 breaking('EV1-seed-C20-r3m3', {'C20': 'EV1'}, patch='/verif/selftest/patches/seed_C20_r3m3.diff')
+breaking('DOM1-seed-C17-r3m3', {'C17': 'DOM1'}, patch='/verif/selftest/patches/seed_C17_r3m3.diff')
 breaking('refix-get_gme_2qubit', {'C13': 'F2', 'C05': 'F2'}, patch_reverse='fix_78cd862.diff')
 
 # ---- behaviour-preserving edits for the second half of the round-3 rules
@@ -253,6 +254,7 @@ preserving('dt6-template-beta-copy', ['C15'], [(M + 'group/_lie.py', "    alpha 
 preserving('f8-clip-kept-on-radicand', ['C18'], [(M + 'state/_internal.py', "    tmp0 = np.clip(alpha + (1-alpha)/(d*d), 0, 1)", "    fidelity = alpha + (1-alpha)/(d*d)\n    tmp0 = np.clip(fidelity, 0, 1)")])
 preserving('w8-softplus-allowed', ['C01', 'C02'], [(M + 'manifold/_stiefel.py', "    theta_list = [(theta[:,x:y,0],theta[:,x:y,1]) for x,y in zip([0]+tmp0,tmp0)]", "    theta_pairs = zip([0]+tmp0,tmp0)\n    theta_list = [(theta[:,x:y,0],theta[:,x:y,1]) for x,y in theta_pairs]")])
 
+preserving('dom1-equivalent-bounds', ['C17'], [(M + 'dicke.py', "    assert (dim>1) and (num_qudit>=1)", "    assert (dim>=2) and (0<num_qudit)")])
 # ---- textual breaking edits, one per rule family
 breaking('S3-ambient-draw', {'C10': 'S3'}, edit=[(M + 'random/_internal.py', "tmp0 = np_rng.normal(size=(N0,dim))\n    tmp0 = tmp0 / np.linalg.norm", "tmp0 = np.random.normal(size=(N0,dim))\n    tmp0 = tmp0 / np.linalg.norm")])
 breaking('S4-unseeded-receiver', {'C10': 'S4'}, edit=[(M + 'random/_internal.py', "    np_rng = get_numpy_rng(seed)\n    assert dim>=2\n    tmp0 = np.triu(", "    np_rng = get_numpy_rng(seed)\n    assert dim>=2\n    np_rng = np.random.default_rng(dim)\n    tmp0 = np.triu(")])
